@@ -107,3 +107,25 @@ def cmp_status(impl, model):
     if ii != mi:
         return "load status differs: impl=%s model=%s (%s)" % (ii, mi, (impl.get("msg") or "")[:200])
     return None
+
+
+def model_tscfg(cfg):
+    """`kernel.timestamp` for the Lean model (`Time.TsCfg`): fixed offset in seconds and the default time;
+    None for a named zone other than UTC (outside the model)"""
+    tz = cfg.get("tz") or {"name": "UTC"}
+    if "offset" in tz:
+        o = tz["offset"]
+        sgn = -1 if o.startswith("-") else 1
+        hh, mm = o[1:].split(":")[:2]
+        off = sgn * (int(hh) * 3600 + int(mm) * 60)
+    elif tz.get("name", "UTC") == "UTC":
+        off = 0
+    else:
+        return None
+    dt = cfg.get("default_time", "00:00:00")
+    frac = 0
+    if "." in dt:
+        dt, f = dt.split(".")
+        frac = int((f + "000000000")[:9])
+    h, m, s = [int(x) for x in dt.split(":")]
+    return {"offset": off, "default_time": [h, m, s, frac]}
